@@ -18,9 +18,9 @@ RULE = ('case = one proof object (ids, citations, stated sequents, nesting, plac
 ASSUMPTIONS = ['citation resolution is observed through Proof.find_item; if the checker stops calling it the run is inconclusive',
                'reference yield of assume / implies_intr / implies_elim / identity substitution computed on shadows',
                'propositional validity by truth table (vf.holmodel)']
-REQUIRED = {'quick': {'hist_rechecks': 800, 'hist_recheck:True/fresh:True': 200, 'accepted': 500, 'rejected': 500, 'L1_citations_checked': 300, 'L2_yields_checked': 300,
+REQUIRED = {'quick': {'exhaustive_two_items_three_ids_parts_done': 3, 'hist_rechecks': 800, 'hist_recheck:True/fresh:True': 200, 'accepted': 500, 'rejected': 500, 'L1_citations_checked': 300, 'L2_yields_checked': 300,
                       'ext_cases': 100, 'ext_admitted_as_proved': 5, 'gaps_reports_checked': 100, 'exhaustive_nested_done': 1},
-            'thorough': {'hist_rechecks': 30000, 'hist_recheck:True/fresh:True': 8000, 'accepted': 5000, 'rejected': 5000, 'L1_citations_checked': 3000, 'L2_yields_checked': 3000,
+            'thorough': {'exhaustive_two_items_three_ids_parts_done': 3, 'hist_rechecks': 30000, 'hist_recheck:True/fresh:True': 8000, 'accepted': 5000, 'rejected': 5000, 'L1_citations_checked': 3000, 'L2_yields_checked': 3000,
                          'ext_cases': 1000, 'ext_admitted_as_proved': 50, 'gaps_reports_checked': 1000, 'exhaustive_nested_done': 1}}
 SHARD_TIMEOUT = {'quick': 600, 'thorough': 7200}
 
@@ -45,11 +45,13 @@ CLAIMS = {'|-B': ((), 'B'), 'A|-B': (('A',), 'B'), 'A,A->B|-B': (('A', 'A->B'), 
 def shards(tier, seed):
     if tier == 'quick':
         return ([{'kind': 'exh', 'n': 1, 'part': 0, 'parts': 1}, {'kind': 'exh', 'n': 2, 'part': 0, 'parts': 1}, {'kind': 'nested'}] +
+                [{'kind': 'exh2w', 'part': p_, 'parts': 3} for p_ in range(3)] +
                 [{'kind': 'exh3_sample', 'count': 2500, 'i': i} for i in range(6)] +
                 [{'kind': 'random', 'count': 700, 'i': i} for i in range(6)] +
                 [{'kind': 'ext', 'count': 400, 'i': i} for i in range(2)] +
                 [{'kind': 'hist', 'count': 1500, 'i': i} for i in range(2)])
     return ([{'kind': 'exh', 'n': 1, 'part': 0, 'parts': 1}, {'kind': 'exh', 'n': 2, 'part': 0, 'parts': 1}, {'kind': 'nested'}] +
+            [{'kind': 'exh2w', 'part': p_, 'parts': 3} for p_ in range(3)] +
             [{'kind': 'exh', 'n': 3, 'part': p, 'parts': 32} for p in range(32)] +
             [{'kind': 'random', 'count': 15000, 'i': i} for i in range(12)] +
             [{'kind': 'ext', 'count': 6000, 'i': i} for i in range(4)] +
@@ -350,6 +352,16 @@ def exh_specs(n):
     opts = item_options(n, ids)
     for idmap in itertools.product(range(n), repeat=n):
         for combo in itertools.product(opts, repeat=n):
+            yield [dict(c, id=(idmap[i],)) for i, c in enumerate(combo)]
+
+
+def exh2_wide_specs():
+    """all proofs of TWO items whose ids and citations range over three values: ids that do not agree with positions
+    (an item at position 0 carrying id 2 and citing the item after it, ...)"""
+    ids = [(i,) for i in range(3)]
+    opts = item_options(3, ids)
+    for idmap in itertools.product(range(3), repeat=2):
+        for combo in itertools.product(opts, repeat=2):
             yield [dict(c, id=(idmap[i],)) for i, c in enumerate(combo)]
 
 
@@ -676,6 +688,12 @@ def run_shard(ctx, spec):
                 continue
             do_spec(ctx, sp, 'exh', sample=(k % 5003 == 17))
         ctx.count('exhaustive_n%d_parts_done' % spec['n'])
+    elif kind == 'exh2w':
+        for k, sp in enumerate(exh2_wide_specs()):
+            if k % spec['parts'] != spec['part']:
+                continue
+            do_spec(ctx, sp, 'exh2w', sample=(k % 5003 == 17))
+        ctx.count('exhaustive_two_items_three_ids_parts_done')
     elif kind == 'nested':
         for k, sp in enumerate(nested_specs()):
             do_spec(ctx, sp, 'nested', sample=(k == 5))
